@@ -126,7 +126,9 @@ def PT(cfg):
     return dict(passthrough=True) if cfg.get('passthrough') else {}
 
 
-def subs_arg(s):
+def subs_arg(s, passthrough=False):
+    if passthrough:     # nothing is unpacked in passthrough mode: only which subsample sets to load is said
+        return {'off': False, 'A': dict(A=True), 'ABpid': dict(A=True, B=True)}[s]
     return {'off': False, 'A': dict(A=True, pos=True), 'ABpid': dict(A=True, B=True, pid=True)}[s]
 
 
@@ -134,7 +136,7 @@ def ref(ci):
     if ci not in _REF:
         cfg = CONFIGS[ci]
         zdir, _ = _ENV.mount(_CAT)
-        c = _ENV.load(zdir, cleaned=cfg['cleaned'], subsamples=subs_arg(cfg['subs']), fields='all', **PT(cfg))
+        c = _ENV.load(zdir, cleaned=cfg['cleaned'], subsamples=subs_arg(cfg['subs'], cfg.get('passthrough')), fields='all', **PT(cfg))
         _REF[ci] = {k: np.array(c.halos[k]) for k in c.halos.colnames}
     return _REF[ci]
 
@@ -155,10 +157,10 @@ def run(case):
     zdir, _ = _ENV.mount(_CAT)
     fields = list(fl) if isinstance(fl, list) else fl
     try:
-        c = _ENV.load(zdir, cleaned=cfg['cleaned'], subsamples=subs_arg(cfg['subs']), fields=fields, **PT(cfg))
+        c = _ENV.load(zdir, cleaned=cfg['cleaned'], subsamples=subs_arg(cfg['subs'], cfg.get('passthrough')), fields=fields, **PT(cfg))
         if isinstance(fl, list):
             # the same list object used for a second load (the usual way to load several catalogs) must give the same table
-            c2 = _ENV.load(zdir, cleaned=cfg['cleaned'], subsamples=subs_arg(cfg['subs']), fields=fields, **PT(cfg))
+            c2 = _ENV.load(zdir, cleaned=cfg['cleaned'], subsamples=subs_arg(cfg['subs'], cfg.get('passthrough')), fields=fields, **PT(cfg))
             missing = [x for x in fl if x not in c2.halos.colnames and not (cfg['cleaned'] and not cfg.get('passthrough') and x in ('N', 'N_total')) and x in R]
             if missing:
                 probs.append(dict(sig='second-load-with-same-list-differs', msg=f'cfg={cfg} fields={fl}: second load with the same list object lacks {missing}'))
